@@ -63,6 +63,7 @@ func OnStore(name string, st *gw.Store, cfg gw.Config, count int) (*Env, error) 
 func (e *Env) Client(i int) *s3c.Client {
 	g := e.GWs[i]
 	c := s3c.New(g.Addr, gw.RootAK, gw.RootSK)
+	c.AdminAddr = g.AdminAddr
 	c.Log = g
 	return c
 }
